@@ -10,7 +10,7 @@ def FeedInv (s : Option Parser × List Instr) (x : List Byte) : Prop :=
   (∃ q, s.1 = some q ∧ Post q (runA {} x) ∧ s.2 = (runA {} x).ins ∧ NoLine (rest q))
 
 theorem rel_init (ch : List Byte) : Rel { buf := ch } {} :=
-  ⟨fun _ => ⟨rfl, rfl⟩, fun h => absurd h (Nat.not_succ_le_zero 1023), rfl, rfl, Iff.rfl⟩
+  ⟨rfl, rfl, rfl, rfl, Iff.rfl⟩
 
 /-- one push and drain -/
 theorem feedStep_inv (s : Option Parser × List Instr) (x ch : List Byte) (hs : FeedInv s x)
@@ -36,7 +36,7 @@ theorem feedStep_inv (s : Option Parser × List Instr) (x ch : List Byte) (hs : 
     rw [hq]
     dsimp only
     have hpre : Pre { q with buf := ch, bix := 0 } (runA {} x) :=
-      ⟨⟨hpost.rel.fits, hpost.rel.over, hpost.rel.comp, hpost.rel.log, hpost.rel.mark⟩, hpost.inv, hb⟩
+      ⟨⟨hpost.rel.skip, hpost.rel.stash, hpost.rel.comp, hpost.rel.log, hpost.rel.mark⟩, hpost.inv, hb⟩
     have hd := drain_spec { q with buf := ch, bix := 0 } (runA {} x) hpre hne
     have ha := drain_nil_acc (ch.length + 2) { q with buf := ch, bix := 0 } (runA {} x).ins
     have hrun : runA (runA {} x) ch = runA {} (x ++ ch) := (runA_append {} x ch).symm
